@@ -18,7 +18,7 @@ func init() {
 		Rule: "cases: the finite grid from in {absent, a} x until in {absent, a-5, a, a+5, a+D-1, a+D, a+D+1} x anchoring time t in {from-1, from, from+1, until-1, until, until+1, from+D-1, from+D, from+D+1} x {update, recover, deactivate} x D=MaxOperationTimeDelta in {0, 1, 600, 7200}, enumerated completely; each grid point executed through the real applier after a valid create and compared in full with the state model whose window predicate is the one-line statement; then each other numeric protocol limit (MaxDeltaSize, MaxOperationSize, MaxOperationHashLength, NonceSize, MaxOperationCount, MaxCasURILength, the four file-size limits, GenesisTime, MaxMemoryDecompressionFactor) is set to values bracketing the grid's times and the verdicts must not move; finally non-batch parsing with a recording time validator must hand over exactly (from, until'). distinct = distinct (type, D, from?, until class, t class, verdict).",
 		Assumptions: []string{"harness state machine and patch model", "the window predicate of the statement"},
 		Exhaustive:  func(tier string) bool { return tier == "thorough" },
-		Require:     []string{"grid-points", "in-window", "out-of-window", "other-parameter-variations", "time-validator-calls"},
+		Require:     []string{"grid-points", "in-window", "out-of-window", "other-parameter-variations", "time-validator-calls", "applier-with-refusing-validator"},
 		Workers:     func(string) int { return 15 },
 		Run:         runC09,
 	})
@@ -116,7 +116,7 @@ func (v *recValidator) Validate(from, until int64) error {
 }
 
 func runC09(r *fw.Runner) {
-	deltas := []uint64{600}
+	deltas := []uint64{0, 600}
 	keyTypes := []string{gen.Ed25519}
 	if r.Thorough {
 		deltas = []uint64{0, 1, 600, 7200}
@@ -184,6 +184,26 @@ func runC09(r *fw.Runner) {
 				}
 			})
 		}
+	}
+	// anchored operations are judged by their anchoring time only: a parser whose time validator refuses everything
+	// (server time far away) must not change any applier verdict, and must not even be consulted
+	for b := 0; b < r.N(4, 20); b++ {
+		r.Case("applier-ignores-time-validator", func(c *fw.Case) {
+			rv := &recValidator{err: operationparser.ErrOperationExpired}
+			old := histStackFactory
+			histStackFactory = func(p protocol.Protocol) *sut.Stack { return sut.NewStack(p, operationparser.WithAnchorTimeValidator(rv)) }
+			defer func() { histStackFactory = old }()
+			grid := c09Grid(600)
+			for i := 0; i < 40; i++ {
+				g := grid[c.Rng.Intn(len(grid))]
+				typ := "urd"[c.Rng.Intn(3)]
+				c.Count("applier-with-refusing-validator", 1)
+				c09Run(c, typ, gen.Ed25519, c09Proto(600), g)
+			}
+			if len(rv.calls) != 0 {
+				c.Failf("applier-consults-time-validator", map[string]interface{}{"calls": len(rv.calls)}, "applying anchored operations called the request-time validator %d times", len(rv.calls))
+			}
+		})
 	}
 	// the parser hands (from, until') to the time validator
 	for b := 0; b < r.N(6, 60); b++ {
